@@ -76,9 +76,9 @@ EXPECT = [  # module, cfg, violated property, what it shows
 # actions that cannot fire in a configuration by construction
 NEVER = {
     "Gossip_out_quick.cfg": ("BDrop", "WaitAbort", "CloseTopic", "EnvPublish", "NetDeliverAt", "NetDeliver", "SubTake", "CbPush", "CbAbort", "SubExit",
-                             "SubSpin", "Consume", "CancelB", "Receive", "NoReceive", "Send", "Next"),
+                             "SubSpin", "Consume", "CancelB", "Receive", "NoReceive", "Send", "Next", "Env"),
     "Gossip_in_thorough.cfg": ("BStart", "BEnqueue", "BAbort", "BDrop", "InitDone", "LoopExit", "LoopTake", "PubOk", "PubFail", "PubCtx", "RetryWake",
-                               "WaitAbort", "LoopTick", "RebroEnd", "TickFire", "Advance", "CancelA", "CloseTopic", "SubSpin", "Receive", "NoReceive", "Send", "Next"),
+                               "WaitAbort", "LoopTick", "RebroEnd", "TickFire", "Advance", "CancelA", "CloseTopic", "SubSpin", "Receive", "NoReceive", "Send", "Next", "Env"),
     "CS_quick.cfg": ("Next",),
 }
 
@@ -106,7 +106,6 @@ def tlc_phase(ctx):
             (C, "CS_live_nodecide.cfg", "catch-up liveness by the catch-up path alone (repaired)")]
     if t:
         hold += [(G, "Gossip_out_close.cfg", "sending side, closed topic, deadline contexts (repaired)"),
-                 (G, "Gossip_out_thorough.cfg", "sending side, larger (repaired)"),
                  (G, "Gossip_out_norebro.cfg", "sending side without rebroadcast strategy"),
                  (G, "Gossip_in_quick.cfg", "receiving side, small"),
                  (G, "Gossip_both_thorough.cfg", "both sides, larger"),
@@ -195,7 +194,6 @@ def selftest(ctx, lines, cfg_text):
     """The trace binding must reject corrupted histories (thorough tier)."""
     def corrupt(kind):
         out, done = [], False
-        seen_take = {}
         for ln in lines:
             e = json.loads(ln)
             if not done:
@@ -206,10 +204,7 @@ def selftest(ctx, lines, cfg_text):
                     e["k"] = "pc" if e["k"] == "pv" else "pv"
                     done = True
                 elif kind == "double-take" and e["ev"] == "Take":
-                    if e["m"] in seen_take:
-                        pass
-                    seen_take[e["m"]] = True
-                    out.append(json.dumps(e))
+                    out.append(json.dumps(e))   # the same vote handed out twice
                     done = True
                 elif kind == "unsent-result" and e["ev"] == "BEnd":
                     e["res"] = "aborted"
